@@ -346,6 +346,7 @@ struct WlInfo {
     id: WorldlineId,
     len: u64,
     strand: bool,
+    seed_fp: [u8; 32],
     /// prefix_fp[t] = hash of the full content of entries 0..=t
     prefix_fp: Vec<[u8; 32]>,
     /// replayed[c] = state replayed at cursor coordinate c (0..=len)
@@ -360,7 +361,15 @@ fn wl_info(rt: &Rt, id: WorldlineId) -> Result<WlInfo, String> {
     let n = rt.provenance.len(id).map_err(|e| format!("{e:?}"))?;
     let mut prefix_fp = Vec::new();
     let mut entries = Vec::new();
-    let mut acc = mc::h(id.as_bytes());
+    // the identity of the worldline *and* of the strand relation it is read under (the basis
+    // posture of a strand read names the strand id) seeds the prefix fingerprint
+    let strand_id = rt.runtime.strands().find_by_child_worldline(&id).map(|s| *s.strand_id().as_bytes());
+    let mut seed = id.as_bytes().to_vec();
+    if let Some(sid) = strand_id {
+        seed.extend_from_slice(&sid);
+    }
+    let seed_fp = mc::h(&seed);
+    let mut acc = seed_fp;
     for t in 0..n {
         let e = rt.provenance.entry(id, wt(t)).map_err(|e| format!("{e:?}"))?;
         let mut b = acc.to_vec();
@@ -380,7 +389,8 @@ fn wl_info(rt: &Rt, id: WorldlineId) -> Result<WlInfo, String> {
     Ok(WlInfo {
         id,
         len: n,
-        strand: rt.runtime.strands().find_by_child_worldline(&id).is_some(),
+        strand: strand_id.is_some(),
+        seed_fp,
         prefix_fp,
         replayed,
         entries,
@@ -613,6 +623,9 @@ fn check_against_replay(out: &mut Out, path: &str, req: &ObservationRequest, a: 
     if !want_posture_ok {
         bad("basis posture class", out);
     }
+    if i.strand {
+        out.o(format!("strand_posture:{}", err_name(&a.reading.parent_basis_posture)));
+    }
     if a.frame != req.frame || a.projection != req.projection {
         bad("echoed frame/projection", out);
     }
@@ -731,7 +744,7 @@ fn record_artifact(out: &mut Out, req: &ObservationRequest, a: &ObservationArtif
         ObservationAt::Frontier => {
             // same worldline history ⇒ same frontier reading (modulo freshness and, for strands,
             // the live parent-basis posture)
-            let p = if i.len == 0 { mc::h(i.id.as_bytes()) } else { i.prefix_fp[i.len as usize - 1] };
+            let p = if i.len == 0 { i.seed_fp } else { i.prefix_fp[i.len as usize - 1] };
             out.bound.push((
                 cache_key(&p, "frontier-normalized", &req_dbg),
                 fp_dbg(&normalized(a, i.strand)),
@@ -1197,19 +1210,20 @@ fn merge(r: &Report, g: &mut Global, o: Out, path: &str) {
     }
 }
 
-/// BFS from `seed` to `depth`; every discovered state is visited (full menus).
-fn explore(r: &Report, g: &mut Global, seen: &mut HashSet<[u8; 32]>, seed: &[Op], depth: usize, with_optic: bool, label: &str) {
+/// BFS from `seed` to `depth`; every discovered state that no earlier exploration visited gets
+/// the full menus.  Traversal dedup is local to this exploration (so a seed inside an earlier
+/// exploration's reach still unfolds to its own depth); `visited` is global.
+fn explore(r: &Report, g: &mut Global, visited: &mut HashSet<[u8; 32]>, seed: &[Op], depth: usize, with_optic: bool, label: &str) {
     let Some(init) = build(seed) else {
         r.machinery_error(&format!("seed {label} could not be built"));
         return;
     };
+    let mut local: HashSet<[u8; 32]> = HashSet::new();
     let mut states = 0u64;
     let mut transitions = 0u64;
-    let mut frontier: Vec<(Rt, Vec<Op>)> = Vec::new();
-    if seen.insert(rt_fp(&init)) {
-        frontier.push((init, seed.to_vec()));
-        states += 1;
-    }
+    let k0 = rt_fp(&init);
+    local.insert(k0);
+    let mut frontier: Vec<(Rt, Vec<Op>, [u8; 32])> = vec![(init, seed.to_vec(), k0)];
     let mut level = 0usize;
     loop {
         if frontier.is_empty() {
@@ -1219,23 +1233,45 @@ fn explore(r: &Report, g: &mut Global, seen: &mut HashSet<[u8; 32]>, seed: &[Op]
             r.cap_hit(&format!("{label}: stopped before visiting level {level} ({} states pending)", frontier.len()));
             break;
         }
-        // visit this level in parallel (states are Send, not Sync: move them in and out)
-        let visited: Vec<(Rt, Vec<Op>, Out)> = frontier
+        // visit the not-yet-visited states of this level in parallel (states are Send, not Sync:
+        // move them in and out)
+        let todo: Vec<(Rt, Vec<Op>, [u8; 32], bool)> = frontier
+            .into_iter()
+            .map(|(rt, p, k)| {
+                let fresh = visited.insert(k);
+                (rt, p, k, fresh)
+            })
+            .collect();
+        let done: Vec<(Rt, Vec<Op>, Option<Out>)> = todo
             .into_par_iter()
-            .map(|(rt, path)| {
-                let o = visit(&rt, &path, with_optic);
-                (rt, path, o)
+            .map(|(rt, path, _k, fresh)| {
+                if !fresh {
+                    return (rt, path, None);
+                }
+                let o = match mc::catch(|| visit(&rt, &path, with_optic)) {
+                    Ok(o) => o,
+                    Err(msg) => {
+                        let mut o = Out::default();
+                        let head: String = msg.chars().take(60).collect();
+                        o.v(format!("c16:panic while serving reads:{head}"), &path_enc(&path), json!({"panic": msg}));
+                        o
+                    }
+                };
+                (rt, path, Some(o))
             })
             .collect();
         let mut cur = Vec::new();
-        for (rt, path, o) in visited {
-            let ps = path_enc(&path);
-            if o.violations.is_empty() && states % 97 == 1 {
-                r.sample(json!({"history": ps, "reads": o.reads,
-                    "worldlines": rt.runtime.worldlines().iter().map(|(id, f)| format!("{}:{}", id.as_bytes()[0], f.frontier_tick().as_u64())).collect::<Vec<_>>()}));
+        for (rt, path, o) in done {
+            if let Some(o) = o {
+                states += 1;
+                let ps = path_enc(&path);
+                if o.violations.is_empty() && states % 97 == 1 {
+                    r.sample(json!({"history": ps, "reads": o.reads,
+                        "worldlines": rt.runtime.worldlines().iter().map(|(id, f)| format!("{}:{}", id.as_bytes()[0], f.frontier_tick().as_u64())).collect::<Vec<_>>()}));
+                }
+                merge(r, g, o, &ps);
+                r.add_traces(1);
             }
-            merge(r, g, o, &ps);
-            r.add_traces(1);
             cur.push((rt, path));
         }
         if level == depth {
@@ -1247,11 +1283,11 @@ fn explore(r: &Report, g: &mut Global, seen: &mut HashSet<[u8; 32]>, seed: &[Op]
             for op in enabled(rt) {
                 let Some(n) = step(rt, &op) else { continue };
                 transitions += 1;
-                if seen.insert(rt_fp(&n)) {
-                    states += 1;
+                let k = rt_fp(&n);
+                if local.insert(k) {
                     let mut p = path.clone();
                     p.push(op);
-                    next.push((n, p));
+                    next.push((n, p, k));
                 }
             }
         }
@@ -1265,6 +1301,7 @@ fn explore(r: &Report, g: &mut Global, seen: &mut HashSet<[u8; 32]>, seed: &[Op]
 
 fn main() {
     let r = Report::new("C16", Level::ModelChecking);
+    mc::quiet_panics();
     r.rule(
         "states: BFS over {ingest(3 programs -> each worldline), scheduler pass (also idle), fork_strand(wl1@t -> child)} on the real \
          runtime, from the empty two-worldline runtime and from seeded strand states, dedup by Debug(runtime+provenance). In EVERY state: \
@@ -1342,6 +1379,9 @@ fn main() {
     r.guard("historical_reads_rechecked_in_descendant_states", g.bound_rechecks > 0);
     r.guard("tick_reads_recorded", r.counter_value("tick_reads_recorded_for_binding") > 0);
     r.guard("optic_tick_reads_recorded", r.counter_value("optic_tick_reads_recorded_for_binding") > 0);
+    r.guard("strand_frontier_postures_of_at_least_3_kinds",
+        ["StrandAtAnchor", "StrandParentAdvancedDisjoint", "StrandRevalidationRequired"].iter().filter(|k| r.outcome_count(&format!("strand_posture:{k}")) > 0).count() >= 3);
+    r.guard("strand_historical_posture_seen", r.outcome_count("strand_posture:StrandHistorical") > 0);
     r.guard("strand_states_visited", r.counter_value("states_with_strand_worldline") > 0);
     r.guard("bounded_readings_within_budget_seen", r.counter_value("bounded_readings_within_budget") > 0);
     r.guard("nonempty_truth_channels_read", g.payloads.get("TruthChannels").map_or(0, |s| s.len()) >= 3);
